@@ -120,7 +120,7 @@ class Arm(Robot):
             end_effector_home (tm): End effector home in global space.
             joint_poses_home (list[tm]): Joint poses in the global space. 
         """        
-        self.screw_list = screw_list
+        self.screw_list = screw_list.copy()
         self.original_screw_list_body = np.copy(screw_list)
         if self._joint_homes_global is not None:
             for i in range((self.num_dof)):
